@@ -12,6 +12,7 @@ wt=/tmp/dw_$tag; dv=/tmp/dv_$tag; export TMPDIR=/tmp/dt_$tag; mkdir -p $TMPDIR
 git -C /repo worktree add -q --detach $wt HEAD || exit 9
 cd $wt
 if ! git apply --check $patch 2>/dev/null; then echo "VERIFY $prop/$name: patch does not apply to /repo HEAD"; cd /; git -C /repo worktree remove --force $wt; rm -rf $TMPDIR; exit 8; fi
+if [ -n "$NOVERIFY" ]; then git apply $patch; else
 mkdir -p $(dirname $demo_path); cp $dir/demo_test.go $demo_path
 eval "$runcmd" > $TMPDIR/demo_clean.log 2>&1; rc_clean=$?
 git apply $patch
@@ -24,6 +25,7 @@ pkgfails=$(grep "^FAIL" $TMPDIR/suite.log | grep -v "schema/dmt\|schema/dsl\|^FA
 echo "VERIFY $prop/$name: demo_without_change_rc=$rc_clean (want 0) build_rc=$rc_build (want 0) demo_with_change_rc=$rc_mut (want !=0) unexpected_test_failures=$fails pkgfails=$pkgfails (want 0)"
 [ "$fails$pkgfails" != "00" ] && cp $TMPDIR/suite.log /tmp/m2_${prop}_${name}_suite.log
 git status --short | grep -v "^ M" | head -3
+fi
 mkdir -p $dv; rsync -a --exclude .git --exclude build --exclude out --exclude seeded --exclude bin --exclude engine /verif/ $dv/
 unset GOTOOLCHAIN GOSUMDB; export GOFLAGS=-mod=mod GOPROXY=off
 cd /verif; timeout 3000 /verif/bin/gosx check -prop $prop -tier $tier -repo $wt -verif $dv "$@" > /tmp/m2_${prop}_${name}.log 2>&1; rc=$?
